@@ -253,7 +253,9 @@ class SerializerBase(object):
             return tuple(self.recreate_classes(x) for x in literal)
         if t is dict:
             if "__class__" in literal:
-                return self.dict_to_class(literal)
+                # the members of a class dict (exception args, attributes, state) are data too: rebuild what is in there first
+                return self.dict_to_class({key: (value if key == "__class__" else self.recreate_classes(value))
+                                           for key, value in literal.items()})
             result = {}
             for key, value in literal.items():
                 result[key] = self.recreate_classes(value)
